@@ -20,23 +20,23 @@ CHECKS = {
    note="Trusted: harness handle discipline (no double free, no use after free by the harness itself), ASan runtime, rustc nightly for the ASan build (absent ASan binary = native only, stated in evidence). The model is dropped wherever aliasing makes expected contents uncertain.",
    technique="deterministic simulation: seeded API call histories with lifetime faults and injected collections, worker processes under ASan as memory oracle"),
  "C06": dict(level="exploration", design="§5 C06",
-   text="Simulated host with a watchdog on the simulated clock (H3 instruction counter): generated programs and 13 unbounded loop/recursion templates on trampolined paths are stepped under seeded step and depth budgets; per step at most one VM instruction unless a native re-entered the VM (then a fixed bound), the budget stops the run, the interpreter stays usable. Resource faults are enumerated in worker processes: 10 allocation templates x 10 sizes up to 2^53 and 12 recursion call paths x 4 depths x 3 native stack sizes under a 4 GiB address-space cap; a dead worker is a violation unless the exact (template, parameter, stack) case is listed under a recorded finding.",
-   note="Trusted: harness, ulimit, process exit status. Three recorded findings are architectural (native re-entry: unbounded step, native-stack overflow; unchecked allocation sizes); their cases are listed one by one in known_findings.json. A worker that hits the 8 s CPU limit inside one step is reported as SLOW, never as a death.",
-   technique="deterministic simulation: host watchdog on a simulated clock + enumerated resource faults (stack size, address-space cap, sizes) in worker processes"),
+   text="Simulated host with a watchdog on the simulated clock (H3 instruction counter): generated programs, 13 unbounded loop/recursion templates on trampolined paths and native-argument sweeps (130 call shapes of String/Array/Number/Math/Date/JSON/RegExp/Object natives x boundary arguments: NaN, +-Infinity, +-2^31, 2^32, +-2^53, +-2^63, fractions, non-ASCII text, lone surrogates) are stepped under seeded step and depth budgets in worker processes; per step at most one VM instruction unless a native re-entered the VM (then a fixed bound), the budget stops the run, the interpreter stays usable, no call panics. Resource faults are enumerated in worker processes: 10 allocation templates x 10 sizes up to 2^53; 30 recursion templates (16 call paths, 14 data-graph walkers: JSON, flat, structuredClone, prototype chains, cyclic arrays, regexp nesting) and 12 source-text nesting templates x 4 depths x 3 native stack sizes under a 4 GiB address-space cap; a dead worker is a violation unless the case belongs to a recorded finding.",
+   note="Trusted: harness, ulimit, process exit status. Five recorded findings are architectural (native re-entry: unbounded step, native-stack overflow on call paths, on data graphs and on nested program text; unchecked allocation sizes); their cases are listed one by one in known_findings.json; a recursion-template death is attributed to the finding that lists a shallower (or at most one decade deeper on a same-or-bigger stack) case of the same template, because where the stack runs out depends on the build. A worker that hits the 8 s CPU limit inside one step is reported as SLOW, never as a death.",
+   technique="deterministic simulation: host watchdog on a simulated clock + enumerated resource faults (stack size, address-space cap, sizes, nesting depths) in worker processes"),
  "C19": dict(level="exploration", design="§5 C19",
-   text="Seeded search over programs (scripts and modules, with/without host-provided imports, host holes with value / error / deferred answers, planted uncaught errors) each run by five drivers with one fixed host schedule: eval, prepare+step, prepare+step with seeded host activity between steps, C API tsrun_run, C API tsrun_step; observable histories (non-Continue results with payloads, console, final value or first line of the error text, exports) must be identical. A synchronous module text is also run as entry program, as host-provided dependency and as InternalModule::source: same exported values and console.",
+   text="Seeded search over programs (scripts and modules, with/without host-provided imports, host holes with value / error / deferred answers, planted uncaught errors) each run by five drivers with one fixed host schedule: eval, prepare+step, prepare+step with seeded host activity between steps, C API tsrun_run, C API tsrun_step; observable histories (non-Continue results with payloads, console, final value or first line of the error text, exports) must be identical. Console text includes non-ASCII lines (the C host receives pointer + byte length). A synchronous module text is also run as entry program, as host-provided dependency and as InternalModule::source, referred to by the importing program in four ways (named/default import, re-export list, namespace import, export * as) placed between two exports of its own: same exported values, export names and console.",
    note="Trusted: harness hosts (Rust and C side implement the same simplest answer policy). The C API has no provider or GC-threshold entry points, so programs avoid clock/randomness. Continue counts are not compared.",
    technique="deterministic simulation: one fixed host schedule replayed through five driver hosts (incl. C API) and three module roles"),
  "C09": dict(level="exploration", design="§5 C09",
-   text="Seeded search over module DAGs (2-8 modules, all import / re-export forms, diamonds, equivalent spellings, live counters) x 6 host delivery schedules per graph (any subset/order per round, early unrequested delivery, duplicate delivery, idle rounds); oracle = independent resolver + closed-form values: canonical unique requests with the right importer, nothing delivered is requested again, termination, each body exactly once after its imports, same result/exports/live bindings under every schedule.",
+   text="Seeded search over module DAGs (2-8 modules, all import / re-export forms incl. aliased export lists and import-then-export, diamonds, equivalent spellings, live counters read directly, through a namespace and through re-export chains of up to three hops in three spellings) x 6 host delivery schedules per graph (any subset/order per round, early unrequested delivery, duplicate delivery, idle rounds); oracle = independent resolver + closed-form values: canonical unique requests with the right importer, nothing delivered is requested again, termination, each body exactly once after its imports, same result/exports/live bindings under every schedule.",
    note="Trusted: the reference resolver and closed-form model in the harness. Order among independent ready modules is not constrained (partial order only).",
    technique="deterministic simulation: seeded delivery schedules (reorder, batch, early, duplicate, withhold) vs reference module-graph model"),
  "C08": dict(level="exploration", design="§5 C08",
-   text="Seeded search over two-party protocol histories: orderDsl programs (<=7 orders; await order, kept results, Promise.all/race over host promises, explicit cancels, async callees) against a tape-driven simulated host (value / error / plain or order-linked pending promise answers, any settle order and batching, unknown and duplicate ids, idle steps, forced collections). An executable reference model of ledger + promises + combinators runs in lockstep and is compared per Suspended (fresh increasing ids, intact payloads, exactly the issued orders, obligations non-empty) and at Complete (log, nothing unanswered, every cancellation event delivered exactly once). Four recorded findings (Promise.any / allSettled over pending host promises, cancellation lost at Complete) are quarantined from the generator and replayed as witnesses.",
+   text="Seeded search over two-party protocol histories: orderDsl programs (<=7 orders; await order, kept results, Promise.all/race over host promises, explicit cancels, statements inside async callees with the catch inside the callee, around the awaited call, on the callee's promise awaited later, or as a .catch handler) against a tape-driven simulated host (value / error / plain or order-linked pending promise answers, any settle order and batching, unknown and duplicate ids, idle steps, forced collections). An executable reference model of ledger + promises + combinators runs in lockstep and is compared per Suspended (fresh increasing ids, intact payloads, exactly the issued orders, obligations non-empty) and at Complete (log, nothing unanswered, every cancellation event delivered exactly once). Four recorded findings (Promise.any / allSettled over pending host promises, cancellation lost at Complete) are quarantined from the generator and replayed as witnesses.",
    note="Trusted: the reference model (about 300 lines) and the harness host. Liveness is bounded: after the host has met every obligation, at most three further fruitless rounds are tolerated.",
    technique="deterministic simulation: two-party protocol histories with fault injection vs lockstep reference model"),
  "C12": dict(level="exploration", design="§5 C12",
-   text="Seeded search over multi-instance scenarios: 2-4 interpreters with their own programs, hosts, clocks and random seeds, scheduled action by action by the simulator in one thread (incl. late creation, early drop, forced collects), after prior lifetimes, and as one OS thread per instance released one action at a time; every instance's full trace must equal its solo trace. Plus the same seeds in 2 (quick) / 4 (thorough) fresh processes under ASLR with a shifted heap: trace hashes must agree.",
+   text="Seeded search over multi-instance scenarios: 2-4 interpreters with their own programs (console timers/groups/counters, new Function, modules with 2-6 exports importing host-delivered modules, an optional follow-up program on the same interpreter), hosts, clocks and random seeds, scheduled action by action by the simulator in one thread (incl. late creation, early drop, forced collects), after prior lifetimes, and as one OS thread per instance released one action at a time; every instance's full trace (results, console, traffic, steps, exports and their enumeration order) must equal its solo trace. Plus the same seeds in 2 (quick) / 4 (thorough) fresh processes under ASLR with a shifted heap: trace hashes must agree.",
    note="Trusted: harness; per-instance collector schedules use thresholds/forced collects only (the injection seam is per thread). A cross-process hash mismatch is reported with the seed index; it cannot be turned into a single-process replay file by construction.",
    technique="deterministic simulation: seeded instance-interleaving scheduler (one thread and turn-based threads) + process-restart comparison"),
  "C11": dict(level="fault_enumeration", design="§5 C11",
